@@ -598,6 +598,12 @@ func rewriteSelect(p *packages.Package, sel *ast.SelectStmt, src []byte, commOf 
 		es = append(es, edit{off: a, end: b, text: hdr})
 		idx++
 	}
+	if !hasDefault {
+		// A select whose clauses all end in terminating statements is itself a
+		// terminating statement; a switch is one only with a default clause.
+		// Select(false, ...) never reports "default", so this clause never runs.
+		es = append(es, edit{off: off(sel.Body.Rbrace), text: "default: panic(\"xsimrt: no case of a blocking select was chosen\")\n"})
+	}
 	a, b := off(sel.Select), off(sel.Body.Lbrace)+1
 	spans = append(spans, [2]int{a, b})
 	args := fmt.Sprint(hasDefault)
